@@ -84,6 +84,8 @@ def run_agg(tape, prop, tier):
     # a second aggregator (another pair, possibly another bar length) alive in the same process, as on an exchange
     # client that follows two markets; its bars are only looked at for cross-talk
     companion = tape.choice([dur, max(1, dur // 5), dur * 2]) if tape.chance(0.3) else None
+    # two fills of one taker order against equal resting orders: same microsecond, same price, same amount
+    twins = tape.chance(0.25)
     res.sample = dict(kind="aggregator", bar_duration=dur, flush_delay=fd, skip_first_bar=skip, windows=nwin,
                       start_offset=start_off, timer_lateness=late, companion_bar_duration=companion,
                       trades=trades_spec[:12])
@@ -150,6 +152,16 @@ def run_agg(tape, prop, tier):
             seen.add(t_[0])
             uniq.append(t_)
         trades = sorted(uniq, key=lambda x: (x[0] - EPOCH).total_seconds() + x[1])
+        twin_of = {}
+        if twins:
+            with_twins = []
+            for t_ in trades:
+                with_twins.append(t_)
+                if t_[3] % 3 == 1:
+                    with_twins.append(t_)          # pushed twice: two distinct trades that look the same
+                    twin_of[t_[3]] = True
+                    res.probes["identical_consecutive_trades"] += 1
+            trades = with_twins
 
         async def feeder():
             for (ts, lat_s, place, i) in trades:
@@ -489,7 +501,8 @@ def run_csv(tape, prop, tier):
     specs = []
     for si in range(nsrc):
         kind = tape.choice(["binance", "bitstamp", "yahoo"])
-        period = tape.choice(["1m", "1h", "1d"]) if kind != "yahoo" else "1d"
+        period = (tape.choice(["1m", "1h", "1d", "1M", "1s", "5m", "4h", "1w", "3d"]) if kind == "binance" else
+                  tape.choice(["1m", "1h", "1d", "5m", "4h", "12h", "3d"]) if kind == "bitstamp" else "1d")
         enc = tape.choice(["utf-8", "utf-8-sig", "utf-16-le", "utf-16-be", "utf-32-le", "utf-32-be"])
         n = tape.draw(25)
         order = tape.choice(["sorted", "shuffled", "reversed"])
@@ -516,7 +529,9 @@ def run_csv(tape, prop, tier):
     tmp = tempfile.mkdtemp(prefix="barsim_")
     got = collections.defaultdict(list)
     out = {}
-    step = {"1m": 60, "1h": 3600, "1d": 86400}
+    # (Binance's month bar is taken as 31 days, as its bar downloader documents)
+    step = {"1s": 1, "1m": 60, "5m": 300, "1h": 3600, "4h": 14400, "12h": 43200, "1d": 86400, "3d": 259200, "1w": 604800,
+            "1M": 31 * 86400}
     T0 = datetime.datetime(2015, 1, 1, tzinfo=UTC)
     try:
         expected = {}
